@@ -433,6 +433,31 @@ def check(fx, rep, tier):
                     f"the conditional jump fails (and the VM then ends the fall-through path) for bad-target kind(s) {sorted(leaking)}: every bad target must leave the not-taken path alive",
                     sample={"rule": "R08.5", "err_exits_in_arm": n_err, "jump_kinds_reaching_them": sorted(leaking)},
                 )
+    # jump targets computed through memory: a byte written by MSTORE8 must not come back from MLOAD as the whole word.
+    # Structurally: the function that hands a stored value to a load reads the recorded store size, not only the data.
+    MS = "vm::state::memory::MemStore"
+    ms_adt = fx.adt(MS)
+    if ms_adt is not None and any(f["name"] == "size" for f in ms_adt["variants"][0]["fields"]):
+        readers = []
+        for b in fx.fn_bodies():
+            if b.get("impl_self") != "vm::state::memory::Memory" or not b.get("hir"):
+                continue
+            reads_data = [x for x, _ in F.walk(b["hir"]["value"]) if x.get("k") == "Field" and x.get("field") == "data" and x.get("adt") == MS]
+            reads_size = [x for x, _ in F.walk(b["hir"]["value"]) if x.get("k") == "Field" and x.get("field") == "size" and x.get("adt") == MS]
+            out = fx.fns.get(b["def"], {}).get("output") or ""
+            if reads_data and "SymbolicValue" in out and b["def"] in cg.reachable({x["def"] for x in vm.opcode_execs}):
+                readers.append((b, bool(reads_size)))
+        for b, sized in readers:
+            rep.oblige(
+                sized,
+                "R08.1",
+                f"store-size-honoured:{F.strip_generics(b['def'])}",
+                F.loc(b["span"]),
+                f"`{b['def']}` hands the data of the latest store at an offset to a word load without looking at the recorded store size: the byte written by MSTORE8 is read back as if it were the whole word, so a jump through `mload` goes to a constant memory does not hold",
+                sample={"rule": "R08.1", "fn": b["def"], "reads_store_size": sized},
+            )
+        rep.floor("R08.1", len(readers), 1, "functions handing stored memory data to loads")
+
     # jump targets computed from PC: PC pushes the offset of the PC instruction itself (shared with C07 R07.2)
     from .. import core
     from .c07 import check_pc_value
